@@ -39,22 +39,36 @@ Definition reader_case := (json * option (list finding))%type.   (* document, ob
 Definition opt_grouped_eq (m : option (list finding)) (o : option (list finding)) : bool :=
   match m, o with Some a, Some b => grouped_eq a b | None, None => true | _, _ => false end.
 
+(** multiset comparison per (rule, file) key: what the property demands (nothing lost, nothing duplicated, nothing
+    altered); the order inside a key is only compared against the MODEL *)
+Definition count_f (x : finding) (l : list finding) : nat := length (List.filter (finding_eqb x) l).
+Definition perm_eq (a b : list finding) : bool :=
+  Nat.eqb (length a) (length b) && forallb (fun x => Nat.eqb (count_f x a) (count_f x b)) (a ++ b).
+
 Definition sonar_model_ok (c : reader_case) : bool :=
   opt_grouped_eq (Some (sonar_reader sonar_select_expr (fst c))) (snd c).
-(** spec: on well-formed documents every open issue and hotspot with a location is filed, nothing else *)
+(** spec: whenever the container has the right shape, every open issue and hotspot that is individually readable
+    is filed, nothing else (one malformed entry must not cost the others) *)
 Definition sonar_spec_ok (c : reader_case) : bool :=
-  if wf_sonar (fst c) then opt_grouped_eq (Some (sonar_spec (fst c))) (snd c) else true.
+  if wf_container (fst c) then match snd c with Some o => perm_eq (sonar_spec_robust (fst c)) o | None => false end else true.
 Definition sonar_wf (c : reader_case) : bool := wf_sonar (fst c).
+(** classification of a spec failure by what was OBSERVED: false = the observation is what that form of the reader
+    would produce (the pinned `a or [] + b or []` expression; the per-file try/except) *)
+Definition sonar_not_like_pinned (c : reader_case) : bool :=
+  negb (opt_grouped_eq (Some (sonar_reader IssuesOrElse (fst c))) (snd c)).
+Definition sonar_not_like_perfile (c : reader_case) : bool :=
+  negb (opt_grouped_eq (Some (sonar_reader IssuesPlusHotspots (fst c))) (snd c)).
 
+(** SARIF / DefectDojo: the reader may raise only on a document with an individually unreadable element; otherwise
+    it files the reference extraction *)
+Definition raise_or (readable : bool) (spec : list finding) (o : option (list finding)) : bool :=
+  match o with Some obs => perm_eq spec obs | None => negb readable end.
 Definition semgrep_model_ok (c : reader_case) : bool := opt_grouped_eq (semgrep_reader (fst c)) (snd c).
-Definition semgrep_spec_ok (c : reader_case) : bool :=
-  match snd c with Some o => grouped_eq (semgrep_spec (fst c)) o | None => true end.
+Definition semgrep_spec_ok (c : reader_case) : bool := raise_or (readable_semgrep (fst c)) (semgrep_spec (fst c)) (snd c).
 Definition codeql_model_ok (c : reader_case) : bool := opt_grouped_eq (codeql_reader (fst c)) (snd c).
-Definition codeql_spec_ok (c : reader_case) : bool :=
-  match snd c with Some o => grouped_eq (codeql_spec (fst c)) o | None => true end.
+Definition codeql_spec_ok (c : reader_case) : bool := raise_or (readable_codeql (fst c)) (codeql_spec (fst c)) (snd c).
 Definition dd_model_ok (c : reader_case) : bool := opt_grouped_eq (dd_reader (fst c)) (snd c).
-Definition dd_spec_ok (c : reader_case) : bool :=
-  match snd c with Some o => grouped_eq (dd_spec (fst c)) o | None => true end.
+Definition dd_spec_ok (c : reader_case) : bool := raise_or (readable_dd (fst c)) (dd_spec (fst c)) (snd c).
 
 (** detect_sarif_tools: files (id, loaded document), observed: Some [(tool, file id)] | None = DuplicateToolError; crashes are
     reported separately by the harness as observed_kind = 2 *)
